@@ -105,7 +105,11 @@ func run(t world.T, cs caseSpec, choose sched.Chooser) execResult {
 	var res execResult
 	res.Result = race.Run(t, cs, choose, oracle(cs, &res))
 	if res.SchedErr != nil {
-		res.violation, res.detail = "C01|sched|scheduler_error", res.SchedErr.Error()
+		if race.SchedErrReproduces(t, cs, res.Choices) {
+			res.violation, res.detail = "C01|sched|scheduler_error", res.SchedErr.Error()
+		} else {
+			rec.Inconclusive()
+		}
 	} else if res.Panic != "" {
 		res.violation, res.detail = "C01|sched|panic|"+strings.SplitN(res.Panic, ":", 2)[0], res.Panic
 	}
@@ -179,7 +183,11 @@ func enumerate(t *testing.T, cs caseSpec, maxPreempt int, fixed []int, onResult 
 		out := cur
 		out.Result = r
 		if r.SchedErr != nil {
-			out.violation, out.detail = "C01|sched|scheduler_error", r.SchedErr.Error()
+			if race.SchedErrReproduces(fatalT{t}, cs, r.Choices) {
+				out.violation, out.detail = "C01|sched|scheduler_error", r.SchedErr.Error()
+			} else {
+				rec.Inconclusive()
+			}
 		} else if r.Panic != "" {
 			out.violation, out.detail = "C01|sched|panic|"+strings.SplitN(r.Panic, ":", 2)[0], r.Panic
 		}
